@@ -1,1 +1,110 @@
-/-! Property theorems for C18 (see /verif/DESIGN.md). Only property theorems and non-vacuity examples live here. -/
+import Proofs.C18
+/-!
+# C18 — coverage instrumentation is transparent and its counts are exact
+
+Theorems over the model `GoawkModel.C18` of `cover.go` (`Annotate`, `annotateStmts`, `trackStatement`): for every program (any
+nesting of if / while / for / for-in / do-while / block, any jumps, nil and empty bodies), with no bound on size or depth.
+-/
+namespace GoawkModel.C18.Props
+open GoawkModel GoawkModel.C18
+set_option linter.unusedSimpArgs false
+
+/-- a program as `Annotate` sees it: the bodies of the Begin blocks, actions, End blocks and functions -/
+def WellFormed (bodies : List Stmts) : Prop := ∀ b ∈ bodies, Stmts.NF true b = true ∧ hasCounter b = false
+
+/-- Transparency core, one body: erasing the inserted counter statements from the annotated body gives back exactly the original
+tree — annotation adds statements and changes nothing else (conditions, bodies, order, nil-vs-empty bodies at every level). -/
+theorem annotate_preserves_shape_body (st : AnnState) (ss : Stmts) (hnf : Stmts.NF true ss = true) (hc : hasCounter ss = false) :
+    eraseStmts (annStmts st ss).2 = ss := by
+  rw [annStmts_erase st ss hnf, eraseStmts_id ss hc]
+
+/-- …and for the whole program, whatever the annotator's state -/
+theorem annotate_preserves_shape : ∀ (bodies : List Stmts) (st : AnnState), WellFormed bodies →
+    (annotate bodies st).2.map eraseStmts = bodies
+  | [], st, _ => rfl
+  | b :: rest, st, h => by
+    have hb := h b (by simp)
+    simp only [annotate, List.map_cons]
+    rw [annotate_preserves_shape_body st b hb.1 hb.2,
+      annotate_preserves_shape rest _ (fun x hx => h x (by simp [hx]))]
+
+/-- a missing action body (the nil slice: "print the record") stays missing, an empty or non-empty one stays present (F21) -/
+theorem nil_body_preserved (st : AnnState) (ss : Stmts) : (annStmts st ss).2.isGoNil = ss.isGoNil := by
+  unfold annStmts
+  cases hn : ss.isGoNil with
+  | true => simp [hn]
+  | false => simpa using annRun_not_goNil st [] ss
+
+/-- an empty body gets no counter and no block -/
+theorem empty_body_untouched (st : AnnState) (f : Bool) : annStmts st (.nil f) = (st, .nil f) := by
+  cases f <;> simp [annStmts, Stmts.isGoNil, annRun]
+
+/-- Every statement of the program is counted in exactly as many reported blocks as it occurs in the program: the statement
+identifiers listed by the blocks are, with multiplicity, the identifiers of all statements. -/
+theorem blocks_partition_count : ∀ (bodies : List Stmts) (st : AnnState), WellFormed bodies →
+    ∃ nb, (annotate bodies st).1.blocks = st.blocks ++ nb ∧
+      ∀ x, (flatIds nb).count x = (bodies.flatMap stmtsIds).count x
+  | [], st, _ => ⟨[], by simp [annotate], by simp [flatIds]⟩
+  | b :: rest, st, h => by
+    obtain ⟨nb1, h1, c1⟩ := annStmts_blocks st b (h b (by simp)).2
+    obtain ⟨nb2, h2, c2⟩ := blocks_partition_count rest (annStmts st b).1 (fun x hx => h x (by simp [hx]))
+    refine ⟨nb1 ++ nb2, ?_, ?_⟩
+    · simp only [annotate]; rw [h2, h1, List.append_assoc]
+    · intro x; simp [flatIds_append, List.count_append, c1, c2]
+
+/-- with distinct statement identifiers (distinct source positions): every statement lies in exactly one block -/
+theorem blocks_partition (bodies : List Stmts) (h : WellFormed bodies) (hd : (bodies.flatMap stmtsIds).Nodup) (x : Nat)
+    (hx : x ∈ bodies.flatMap stmtsIds) :
+    (flatIds (annotate bodies ⟨[]⟩).1.blocks).count x = 1 := by
+  obtain ⟨nb, h1, c⟩ := blocks_partition_count bodies ⟨[]⟩ h
+  simp only [List.nil_append] at h1
+  rw [h1, c x]
+  rw [List.Nodup.count hd]; simp [hx]
+
+/-- …and nothing else is in a block -/
+theorem blocks_only_statements (bodies : List Stmts) (h : WellFormed bodies) (x : Nat) (hx : x ∉ bodies.flatMap stmtsIds) :
+    x ∉ flatIds (annotate bodies ⟨[]⟩).1.blocks := by
+  obtain ⟨nb, h1, c⟩ := blocks_partition_count bodies ⟨[]⟩ h
+  simp only [List.nil_append] at h1
+  rw [h1]
+  intro hmem
+  have := c x
+  rw [List.count_eq_zero_of_not_mem hx] at this
+  exact absurd (List.count_pos_iff.2 hmem) (by omega)
+
+/-! ## the dynamic statements (control-flow semantics `execStmts`): stated in full, not yet proved — they are exercised by the
+driver's self-check on random bodies and scripts, and on the real binary by the twin-program oracle. -/
+
+/-- running the annotated body takes the same decisions, ends the same way, and starts the same statements in the same order -/
+def TraceTransparent : Prop :=
+  ∀ (ss : Stmts), Stmts.NF true ss = true → hasCounter ss = false → ∀ (sc : List Nat) (fuel : Nat) (r : Run),
+    execStmts fuel ss sc [] = some r →
+    ∃ fuel' r', execStmts fuel' (annStmts ⟨[]⟩ ss).2 sc [] = some r' ∧ r'.sig = r.sig ∧ r'.script = r.script ∧
+      eraseTrace r'.trace = r.trace
+
+/-- counter k fires exactly as often as the first statement of block k starts -/
+def CountExact : Prop :=
+  ∀ (ss : Stmts), Stmts.NF true ss = true → hasCounter ss = false → (stmtsIds ss).Nodup → ∀ (sc : List Nat) (fuel : Nat) (r : Run),
+    execStmts fuel (annStmts ⟨[]⟩ ss).2 sc [] = some r →
+    ∀ k b, (annStmts ⟨[]⟩ ss).1.blocks[k]? = some b → ∀ i, b.ids.head? = some i →
+      countCtr (k + 1) r.trace = countStart i (eraseTrace r.trace)
+
+/-! ## non-vacuity and instances -/
+
+/-- `{ s1; while (2) { s3; if (4) { continue } else { s6 }; s7 }; s8 }` -/
+def sample : Stmts :=
+  .cons (.simple 1) (.cons (.whileS 2 (.cons (.simple 3) (.cons (.ifS 4 (.cons (.jump 5 .cont) (.nil false)) (.cons (.simple 6) (.nil false)))
+    (.cons (.simple 7) (.nil false))))) (.cons (.simple 8) (.nil false)))
+
+example : WellFormed [sample, .nil true, .nil false] := by
+  intro b hb; simp at hb; rcases hb with rfl | rfl | rfl <;> decide
+example : ((annotate [sample, .nil true, .nil false] ⟨[]⟩).1.blocks.map (·.ids)) = [[5], [6], [3, 4], [7], [1, 2], [8]] := by decide
+example : (annotate [sample, .nil true, .nil false] ⟨[]⟩).2.map eraseStmts = [sample, .nil true, .nil false] := by rfl
+example : (stmtsIds sample).Nodup := by decide
+-- instances of the two unproved statements: script 1,1,0 = loop once (taking the `continue` branch), then leave
+example : (execStmts 60 (annStmts ⟨[]⟩ sample).2 [1, 1, 0] []).map (fun r => (r.sig, r.script, eraseTrace r.trace)) =
+    (execStmts 60 sample [1, 1, 0] []).map (fun r => (r.sig, r.script, r.trace)) := by decide
+example : (execStmts 60 (annStmts ⟨[]⟩ sample).2 [1, 1, 0] []).map (fun r => (List.range 6).map fun k => countCtr (k + 1) r.trace) =
+    some [1, 0, 1, 0, 1, 1] := by decide
+
+end GoawkModel.C18.Props
